@@ -85,8 +85,28 @@ def build():
     outer = block(nid, [inner], 'float', height=Fraction(30))
     first, second = para(nid, 3), para(nid, 2)
     out['oof_nested_float_postponed'] = dict(
-        finding='nested-out-of-flow-in-postponed-float', witness='Witness.nested_float_in_postponed_float_duplicated',
+        fixed='nested-out-of-flow-in-postponed-float', commit='0d665d0',
+        regression='Witness.nested_float_in_postponed_float_not_duplicated',
         doc=document(nid, 70, [first, second, outer]))
+    nid = Ids(60)
+    out['oof_zero_height_float_inside'] = dict(
+        fixed='(C11) zero-height-float-ignores-other-floats', commit='1bc67ce',
+        regression='Witness.zero_height_float_avoids_floats',
+        doc=document(nid, 50, [para(nid, 3, 'float'), block(nid, [], height=Fraction(10)),
+                               para(nid, 1, 'float', height=Fraction(0))]))
+    nid = Ids(70)
+    kids = [para(nid, 2), para(nid, 1, 'abs'), para(nid, 3)]
+    out['oof_earlier_break_cut_block'] = dict(
+        fixed='(C03, stage 1) earlier-break-keeps-bottom-decoration', commit='24ce8bf',
+        regression='Witness.earlier_break_cuts_bottom_decoration',
+        doc=document(nid, 50, [block(nid, kids, pb=Fraction(5), mb=Fraction(3), brkAfter='avoid'), para(nid, 2)]))
+    nid = Ids(80)
+    inner = block(nid, [], mt=Fraction(20))
+    wrapper = block(nid, [inner])
+    first = para(nid, 2)
+    out['oof_empty_wrapper_page'] = dict(
+        finding='wrapper-of-empty-box-opens-empty-page (C03)', witness='Witness.wrapper_of_empty_box_opens_empty_page',
+        doc=document(nid, 30, [first, wrapper]))
     return out
 
 
@@ -107,7 +127,7 @@ def main():
         real = pm_oof_corr.real_line(doc)
         path = ROOT / 'corpus' / 'C01' / f'{name}.json'
         old = json.loads(path.read_text()) if path.exists() else {}
-        violation = pm_oof_corr.conservation_violation(doc, real)
+        violation = pm_oof_corr.conservation_violation(doc, real) or pm_oof_corr.progress_violation(doc, real)
         dup = pm_oof_corr.duplication_violation(doc, real)
         status = 'ok' if real == model else 'REAL != MODEL'
         if old and old.get('implementation') != real:
@@ -122,7 +142,7 @@ def main():
             data = {k: v for k, v in entry.items() if k != 'doc'}
             data.update(doc=pm_oof_corr.doc_json(doc), html=pm_oof.doc_html(doc), line=pm_oof.doc_line(doc),
                         implementation=real, violation=violation)
-            if 'fixed' in entry and old.get('violation') and old.get('finding'):
+            if 'fixed' in entry and old.get('finding'):
                 data['violation_before_repair'] = old['violation']
                 data['implementation_before_repair'] = old['implementation']
             elif old.get('violation_before_repair'):
